@@ -85,11 +85,14 @@ void formula(const char* name, Prep prep, Call call, Ref ref) {
       vf::stat("skipped_out_of_range");
       continue;
     }
-    // accepted error: 4 ulp of the result, or the image of +-1,+-2,+-4 ulp moves of each input under the exact formula (R3)
+    // accepted error: 8 ulp of the result ("a few ulps": the inputs are exact numbers, a definition of a handful of operations
+    // evaluated sensibly stays within that whatever the conditioning - a difference of two inputs is exactly rounded, x - 1 is
+    // exact next to one). VERIF_C18_INPUT_MOVES=1 adds the image of +-1,+-2,+-4 ulp moves of each input (the older, laxer rule).
     f128 tol[9], wmax = 0;
     for (int j = 0; j < NOUT; j++) wmax = fmaxq(wmax, fabsq(want[j]));
-    for (int j = 0; j < NOUT; j++) tol[j] = 4 * vf::ulp_at<T>(NOUT > 1 ? wmax : want[j]);
-    for (int a = 0; a < NIN; a++) {
+    for (int j = 0; j < NOUT; j++) tol[j] = 8 * vf::ulp_at<T>(NOUT > 1 ? wmax : want[j]);
+    static const bool input_moves = std::getenv("VERIF_C18_INPUT_MOVES") != nullptr;
+    for (int a = 0; a < NIN && input_moves; a++) {
       f128 worstj[9] = {0, 0, 0, 0, 0, 0, 0, 0, 0};
       for (int d : {-4, -2, -1, 1, 2, 4}) {
         f128 y[12], w2[9];
@@ -117,6 +120,15 @@ void formula(const char* name, Prep prep, Call call, Ref ref) {
   vf::maxf(std::string("max_error_over_tolerance_") + vf::TName<T>::value, worst);
   vf::stat("definitions_checked");
   vf::setadd("rows_present", name);
+}
+// a heat-capacity ratio made from a grid value: in (1.45, 1.9] for the values with an even binary exponent, between 1.007 and
+// 1.014 for the others (gamma - 1 and 1 - 1/gamma cancel there: a definition evaluated sensibly still holds to a few ulps)
+template <class T>
+T gamma_from(T v) {
+  int e;
+  T f = std::frexp(v, &e);
+  if (e & 1) f = std::ldexp(f, -6);
+  return (T)1 + f * (T)0.9;
 }
 #define ID [](const T* g, T* in) { for (int i = 0; i < 12; i++) in[i] = g[i]; }
 #define ROW(NAME, NIN, NOUT, EXISTS, PREP, CALL, REF)                                                    \
@@ -161,7 +173,8 @@ void table() {
   auto gam = [](const T* g, T* in) {
     for (int i = 0; i < 12; i++) in[i] = g[i];
     int e;
-    const T f = std::frexp(g[1], &e);  // [0.5, 1)
+    T f = std::frexp(g[1], &e);  // [0.5, 1)
+    if (e & 1) f = std::ldexp(f, -6);  // every other grid value: gamma between 1.007 and 1.014 (cancellation in gamma - 1, 1 - 1/gamma)
     in[1] = g[0] * ((T)1 + f * (T)0.9);
   };
   // ---- dynamic pressure 1/2 rho v^2 and its inverses; kinematic form 1/2 v^2
@@ -235,28 +248,32 @@ void table() {
       [](const T* g, T* in) {
         int e;
         in[0] = g[0];
-        in[1] = (T)1 + std::frexp(g[1], &e) * (T)0.9;
+        in[1] = gamma_from<T>(g[1]);
+        (void)e;
       },
       { o[0] = GC(S<HCR>(x[1]), S<ECP>(x[0])).Value(); }, { o[0] = x[0] * (1 - 1 / x[1]); })
   ROW("GasConstant(HeatCapacityRatio, IsochoricHeatCapacity) = Cv (gamma - 1)", 2, 1, (CT(GC, Ex<HCR>, Ex<ECV>)),
       [](const T* g, T* in) {
         int e;
         in[0] = g[0];
-        in[1] = (T)1 + std::frexp(g[1], &e) * (T)0.9;
+        in[1] = gamma_from<T>(g[1]);
+        (void)e;
       },
       { o[0] = GC(S<HCR>(x[1]), S<ECV>(x[0])).Value(); }, { o[0] = x[0] * (x[1] - 1); })
   ROW("SpecificGasConstant(HeatCapacityRatio, SpecificIsobaricHeatCapacity) = cp (1 - 1/gamma)", 2, 1, (CT(SGC, Ex<HCR>, Ex<CP>)),
       [](const T* g, T* in) {
         int e;
         in[0] = g[0];
-        in[1] = (T)1 + std::frexp(g[1], &e) * (T)0.9;
+        in[1] = gamma_from<T>(g[1]);
+        (void)e;
       },
       { o[0] = SGC(S<HCR>(x[1]), S<CP>(x[0])).Value(); }, { o[0] = x[0] * (1 - 1 / x[1]); })
   ROW("SpecificGasConstant(HeatCapacityRatio, SpecificIsochoricHeatCapacity) = cv (gamma - 1)", 2, 1, (CT(SGC, Ex<HCR>, Ex<CV>)),
       [](const T* g, T* in) {
         int e;
         in[0] = g[0];
-        in[1] = (T)1 + std::frexp(g[1], &e) * (T)0.9;
+        in[1] = gamma_from<T>(g[1]);
+        (void)e;
       },
       { o[0] = SGC(S<HCR>(x[1]), S<CV>(x[0])).Value(); }, { o[0] = x[0] * (x[1] - 1); })
 
@@ -264,12 +281,15 @@ void table() {
   auto gamma2 = [](const T* g, T* in) {  // in[0] any positive, in[1] = a heat-capacity ratio in (1, 1.9]
     int e;
     in[0] = g[0];
-    in[1] = (T)1 + std::frexp(g[1], &e) * (T)0.9;
+    in[1] = gamma_from<T>(g[1]);
+        (void)e;
   };
   auto fraction2 = [](const T* g, T* in) {  // in[0] any positive, in[1] = a fraction (0.05, 0.5] of it (R < cp)
     int e;
     in[0] = g[0];
-    in[1] = g[0] * (std::frexp(g[1], &e) * (T)0.9 - (T)0.4);
+    T fr = std::frexp(g[1], &e) * (T)0.9 - (T)0.4;
+    if (e & 1) fr = std::ldexp(fr, -6);  // every other grid value: R a hundredth of cp and less (gamma next to one)
+    in[1] = g[0] * fr;
   };
 #define GAS_ROWS(CPt, CVt, Rt, L)                                                                                                                             \
   ROW(L " cv(R, gamma) = R / (gamma - 1)", 2, 1, (CT(CVt, Ex<Rt>, Ex<HCR>)), gamma2, { o[0] = CVt(S<Rt>(x[0]), S<HCR>(x[1])).Value(); }, { o[0] = x[0] / (x[1] - 1); })   \
